@@ -699,3 +699,131 @@ B('c18-benign-fstring-width', 'C18', F,
 
 
 @defer_operations(allowed_categories=['sequence'])''')
+
+# =========================================================================== C06
+S('c06-rfind', 'C06', F, '''        count = search_buffer.find(until_marker)
+        assert count >= 0''', '''        count = search_buffer.rfind(until_marker)
+        assert count >= 0''', 'C06-marker-search')
+S('c06-window-from-zero', 'C06', F,
+  '''            max_next_offset_allowed = offset + self._search_buffer_length
+            search_buffer = raw[offset:max_next_offset_allowed]
+        else:
+            search_buffer = raw[offset:]
+
+        count = search_buffer.find(until_marker)''',
+  '''            max_next_offset_allowed = offset + self._search_buffer_length
+            search_buffer = raw[:max_next_offset_allowed]
+        else:
+            search_buffer = raw[offset:]
+
+        count = search_buffer.find(until_marker)''', 'C06-marker-search')
+S('c06-window-off-by-one', 'C06', F,
+  '''            max_next_offset_allowed = offset + self._search_buffer_length
+            search_buffer = raw[offset:max_next_offset_allowed]
+        else:
+            search_buffer = raw[offset:]
+
+        extra_count = 0''',
+  '''            max_next_offset_allowed = offset + self._search_buffer_length - 1
+            search_buffer = raw[offset:max_next_offset_allowed]
+        else:
+            search_buffer = raw[offset:]
+
+        extra_count = 0''', 'C06-marker-search')
+S('c06-include-wrong-branch', 'C06', F,
+  '''        if self.include_delimiter:
+            count += len(until_marker)
+        else:
+            self.delimiter_to_be_included = until_marker
+            if self.consume_delimiter:
+                extra_count = len(until_marker)''',
+  '''        if self.include_delimiter:
+            extra_count = len(until_marker)
+        else:
+            self.delimiter_to_be_included = until_marker
+            if self.consume_delimiter:
+                extra_count = len(until_marker)''', 'C06-include-consume')
+S('c06-consume-ignored', 'C06', F,
+  '''            self.delimiter_to_be_included = until_marker
+            if self.consume_delimiter:
+                extra_count = len(until_marker)''',
+  '''            self.delimiter_to_be_included = until_marker
+            extra_count = len(until_marker)''', 'C06-include-consume')
+S('c06-regex-include-uses-start', 'C06', F,
+  '''                if self.include_delimiter:
+                    count = match.end()''',
+  '''                if self.include_delimiter:
+                    count = match.start() + 1''', 'C06-include-consume')
+S('c06-regex-search-raw-offset', 'C06', F,
+  '''            match = until_marker.search(
+                search_buffer, 0
+            )''',
+  '''            match = until_marker.search(
+                raw, offset
+            )''', 'C06-marker-search')
+S('c06-regex-match-anchored', 'C06', F,
+  '''            match = until_marker.search(
+                search_buffer, 0
+            )''',
+  '''            match = until_marker.match(
+                search_buffer, 0
+            )''', 'C06-marker-search')
+S('c06-pack-drops-delimiter', 'C06', F,
+  '''        r = getattr(pkt, self.field_name) + self.delimiter_to_be_included''',
+  '''        r = getattr(pkt, self.field_name)''', 'C06-pack-reemits')
+S('c06-pack-delimiter-first', 'C06', F,
+  '''        r = getattr(pkt, self.field_name) + self.delimiter_to_be_included''',
+  '''        r = self.delimiter_to_be_included + getattr(pkt, self.field_name)''', 'C06-pack-reemits')
+S('c06-ctor-delimiter-always', 'C06', F,
+  '''            self.until_marker if isinstance(self.until_marker, bytes)
+            and not include_delimiter else b\'\'''',
+  '''            self.until_marker if isinstance(self.until_marker, bytes)
+            else b\'\'''', 'C06-pack-reemits')
+S('c06-field-size-plus-one', 'C06', F,
+  '''        byte_count = getattr(pkt, self.byte_count.field_name)
+        next_offset = offset + byte_count''',
+  '''        byte_count = getattr(pkt, self.byte_count.field_name) & 0xffff
+        next_offset = offset + byte_count''', 'C06-sized-read')
+S('c06-sized-return-short', 'C06', F,
+  '''        setattr(pkt, self.field_name, chunk)
+        return next_offset
+
+    def _unpack_variable_size_callable''',
+  '''        setattr(pkt, self.field_name, chunk)
+        return max(next_offset - 1, offset)
+
+    def _unpack_variable_size_callable''', 'C06-sized-read')
+S('c06-callable-kind-to-field-strategy', 'C06', F,
+  '''            elif callable(self.byte_count):
+                self.unpack = self._unpack_variable_size_callable
+
+            elif isinstance(''',
+  '''            elif callable(self.byte_count):
+                self.unpack = self._unpack_fixed_size
+
+            elif isinstance(''', 'C06-sized-read')
+S('c06-assert-false-dropped', 'C06', F,
+  '''                self.unpack = self._unpack_with_regexp_marker
+
+            else:
+                assert False''',
+  '''                self.unpack = self._unpack_with_regexp_marker
+
+            else:
+                self.unpack = self._unpack_with_string_marker''', 'C06-strategy-selection')
+B('c06-benign-index', 'C06', F, '''        count = search_buffer.find(until_marker)
+        assert count >= 0''', '''        count = search_buffer.index(until_marker)''')
+B('c06-benign-arith-rewrite', 'C06', F,
+  '''        next_offset = offset + count
+        setattr(pkt, self.field_name, raw[offset:next_offset])
+
+        return next_offset + extra_count
+
+    def _unpack_with_regexp_marker''',
+  '''        value_end = count + offset
+        setattr(pkt, self.field_name, raw[offset:value_end])
+        cursor = value_end
+        cursor += extra_count
+        return cursor
+
+    def _unpack_with_regexp_marker''')
